@@ -551,9 +551,8 @@ def _emit_fn(asm, out, unit, kv, block, default_props):
             for rule in t.split()[1:]:
                 sig2, body2, n = rw.apply(rule, sig, body)
                 if n == 0:
-                    if kv.get('optional_rewrites'):
-                        continue
-                    raise ExtractError("rewrite rule %s no longer matches in %s" % (rule, fname))
+                    # a rule only makes a construct acceptable to Verus; nothing to rewrite is not an error
+                    continue
                 sig, body = sig2, body2
                 asm.rewrites.append((rule, fname, n))
         elif t.startswith('subst '):
